@@ -184,6 +184,31 @@ def main(argv):
     if argv[0] == "--build":
         build_engine(force=True)
         return 0
+    if argv[0] == "--run":
+        # ad-hoc: ./check --run <pkgdir> <Harness> k=v ...
+        build_engine()
+        params = {}
+        extra = {}
+        for kv in argv[3:]:
+            k, v = kv.split("=")
+            if k in ("max_steps", "max_paths"):
+                extra[k] = int(v)
+            else:
+                params[k] = int(v)
+        prog = dict(pkg=argv[1], harness=argv[2], params=params, **extra)
+        res, code = run_gosym(os.path.join(VERIF, "work", "adhoc"), [prog])
+        if res is None:
+            return 2
+        r = res[0]
+        print("status", r["status"], "paths", r["paths"], "reach", r.get("reach"), "pruned", r.get("assume_pruned"), "error", r.get("error"), "inconclusive", r.get("inconclusive"))
+        seen = set()
+        for v in r.get("violations") or []:
+            key = (v["kind"], v["label"])
+            if key in seen:
+                continue
+            seen.add(key)
+            print("VIOL", v["kind"], v["label"], "msg=", v.get("msg"), "site=", v.get("site"), "events=", v.get("events"), "nondet=", [n.get("c") for n in v["nondet"]][:40])
+        return code
     prop = argv[0]
     if prop not in registry.PROPS:
         log("unknown property", prop)
